@@ -1880,6 +1880,24 @@ where
                             if ann.node == *remote {
                                 continue;
                             }
+                            // Only send refs announcements if the remote is allowed to know about
+                            // the repository. If we don't have the repository, we can't determine
+                            // whether it's private or public, so we don't send anything.
+                            if let AnnouncementMessage::Refs(RefsAnnouncement { rid, .. }) =
+                                &ann.message
+                            {
+                                let visible = self
+                                    .storage
+                                    .get(*rid)
+                                    .ok()
+                                    .flatten()
+                                    .map(|doc| doc.is_visible_to(&(*remote).into()))
+                                    .unwrap_or(false);
+
+                                if !visible {
+                                    continue;
+                                }
+                            }
                             // Only send messages if we're a relay, or it's our own messages.
                             if relay || ann.node == local {
                                 self.outbox.write(peer, ann.into());
